@@ -435,10 +435,15 @@ def gen_dop_value(rng, dop, siblings=None, sib_params=None):
         name, st = c
         v = gen_params_value(rng, st.params) if st is not None else {}
         covered = lambda k: any(cc.lower <= k <= cc.upper for cc in dop.cases)
-        if not covered(0) and (rng.random() < 0.5 or CANON_KEYS):
-            return (name, v)
+        # the default case selected by its short name (or by None): the encoder has to choose a switch key that no
+        # regular case claims (odxtools: the smallest non-negative one), whatever the declaration order of the cases
         if CANON_KEYS:
-            raise Unsupported("default case has no canonical switch key (0 belongs to a case)")
+            return (name, v)
+        r = rng.random()
+        if r < 0.4:
+            return (name, v)
+        if r < 0.5:
+            return (None, v)
         lo, hi = int_range(dop.switch_dop.dct.bt, dop.switch_dop.dct.enc, dop.switch_dop.dct.bitlen)
         free = [k for k in list(range(max(lo, 0), min(hi, 300) + 1)) if not covered(k)]
         if not free:
@@ -568,7 +573,9 @@ def complete_dop(dop, v, siblings=None, sib_params=None, trig=None):
         return [complete_params(dop.item.params, x, trig) for x in v]
     if isinstance(dop, D.Mux):
         sel, cv = v
-        if isinstance(sel, int):
+        if sel is None:
+            name, st = dop.default
+        elif isinstance(sel, int):
             hit = next((c for c in dop.cases if c.lower <= sel <= c.upper), None)
             name, st = (hit.name, hit.struct) if hit else dop.default
         else:
